@@ -2,11 +2,11 @@
  * free_ll_l2cap_received() / add_to_receive_buffer() fed by a (possibly malicious) central.
  *
  * From construction, K link layer PDUs arrive one after the other; after each arrival the link layer calls
- * next_ll_l2cap_received() (twice, when something is returned: it is documented to be idempotent) and, when something was
- * returned, free_ll_l2cap_received().  Per PDU everything is symbolic: LLID (1 continuation, 2 start, 3 LL control), the size
- * (header only ... RXMAX), all bytes (RXMAX <= 64) resp. the first 8 bytes and one byte at a symbolic position (larger RXMAX),
- * hence the L2CAP length field (any 16 bit value, also larger than the MTU), the CID, overlong / short / orphaned / repeated
- * fragments in every combination.
+ * next_ll_l2cap_received() (case parameter TW: twice, it is documented to return the same PDU until it is freed) and, when
+ * something was returned, free_ll_l2cap_received().  The shape of the sequence (LLID 1 continuation / 2 start / 3 LL control and
+ * payload size of every PDU) is the case split; all PDU bytes are symbolic, hence the L2CAP length field (any 16 bit value, also
+ * larger than the MTU or smaller than what the fragments carry), the CID, overlong / short / orphaned / repeated fragments.
+ * Every PDU is an exact-size object (reads beyond the PDU are caught by the pointer checks).
  *
  * Oracle (from the property statement; Core spec Vol 3 Part A 7.2.1 / Vol 6 Part B 2.4.1 for the roles of the LLIDs):
  *   - LL control PDUs are handed through unchanged, in order, exactly once; they may be interleaved with the fragments of an SDU
@@ -19,32 +19,48 @@
  *   - permissive where the statement leaves latitude: when a fragment carries more than the announced rest (overlong
  *     continuation, or a start fragment longer than its own announcement) the implementation may deliver the SDU cut at the
  *     announced length or drop it
- *   - memory: every byte of the ll_l2cap_sdu_buffer object outside receive_buffer_, receive_size_ and receive_buffer_used_ is
- *     unchanged after every call (the padding byte right behind receive_buffer_ included), remaining + used never exceed the
- *     reassembly buffer
+ *   - memory: remaining + used never exceed the reassembly buffer; every byte of the ll_l2cap_sdu_buffer object behind
+ *     receive_buffer_ except receive_size_ and receive_buffer_used_ (padding, transmit_buffer_, transmit_size_,
+ *     transmit_buffer_used_; filled with symbolic canary values) is unchanged after every call.  A copy runs upwards from inside
+ *     receive_buffer_, so an overflow hits the canary directly behind it first.  Writes beyond the object are caught by CBMC's
+ *     pointer checks (ASan in the replay).
  *
- * case parameters: CFG (shims/sdu.cpp), K number of PDUs, RXMAX largest PDU of the radio (header, layout overhead and payload),
- *                  T0..T3 / Z0..Z3: LLID / payload size of PDU i (-1: symbolic)
+ * case parameters: CFG (shims/sdu.cpp), K number of PDUs (<= 4), T0..T3 / Z0..Z3: LLID / payload size of PDU i, TW,
+ *                  MAXCOPY = largest PDU of the case (bound of the copy loop)
  */
 #include "vf.h"
 
-const uint8_t* vf_sdu_next_ll_l2cap_received(int cfg, unsigned long* out_size, int* where, long* off);
+const uint8_t* vf_sdu_next_ll_l2cap_received(int cfg, unsigned long* out_size, int* where);
+void vf_sdu_construct(int cfg);
 void vf_sdu_free_ll_l2cap_received(int cfg);
 unsigned long vf_sdu_geometry(int cfg, int what);
 unsigned char vf_sdu_peek(int cfg, unsigned long off);
 void vf_sdu_poke(int cfg, unsigned long off, unsigned char v);
 unsigned long vf_sdu_receive_size(int cfg);
 unsigned long vf_sdu_receive_buffer_used(int cfg);
-unsigned long vf_sdu_transmit_size(int cfg);
-unsigned long vf_sdu_transmit_buffer_used(int cfg);
+
+#ifdef VF_CBMC
+/* CBMC's built-in memmove models a copy of symbolic length with array theory and does not finish; the copies of the SDU buffer
+ * (std::copy of at most one PDU, case parameter MAXCOPY) are modelled by a byte loop covered by the unwinding assertions.
+ * Source and destination are different objects (PDU of the radio -> reassembly buffer), asserted, so that a forward copy is
+ * memmove.  No pointer -> integer conversions. */
+void* memmove(void* d, const void* s, size_t n)
+{
+    uint8_t* dp = (uint8_t*)d; const uint8_t* sp = (const uint8_t*)s;
+    __CPROVER_assert(n <= MAXCOPY, "VFCHECK memmove: the SDU buffer never copies more than one PDU at once");
+    __CPROVER_assert(n == 0 || __CPROVER_POINTER_OBJECT(d) != __CPROVER_POINTER_OBJECT(s), "VFCHECK memmove: source and destination are distinct objects");
+    for (size_t i = 0; i < MAXCOPY && i < n; ++i) dp[i] = sp[i];
+    return d;
+}
+#endif
 
 #define NCFG 3
 static const unsigned MTU[NCFG]  = { 65, 65, 40 };
 static const unsigned LOVH[NCFG] = { 0, 1, 0 };      /* layout overhead: bytes between the 2 byte LL header and the payload */
 
-#define MAXK 6
+#define MAXK 4
 static int cfg;
-static unsigned mtu, llo, rxmax;       /* llo: LL header + layout overhead = offset of the payload in a PDU */
+static unsigned mtu, llo;       /* llo: LL header + layout overhead = offset of the payload in a PDU */
 
 /* ---- environment: the radio's receive queue */
 static uint8_t* q_pdu[MAXK];
@@ -54,7 +70,7 @@ static int n_free, n_cb;
 
 uint8_t* vf_sdu_env_allocate_transmit_buffer(unsigned long size, unsigned long* out_size) { (void)size; *out_size = 0; return 0; }
 void vf_sdu_env_commit_transmit_buffer(uint8_t* buffer, unsigned long size) { (void)buffer; (void)size; CHECK(0, "nothing is transmitted while no SDU was committed"); }
-unsigned long vf_sdu_env_max_tx_size(void) { return 29 + llo - 2; }
+unsigned long vf_sdu_env_max_tx_size(void) { return 27 + llo; }
 const uint8_t* vf_sdu_env_next_received(unsigned long* out_size)
 {
     if (q_head == q_tail) { *out_size = 0; return 0; }
@@ -69,71 +85,61 @@ void vf_sdu_env_free_received(void)
 }
 void vf_sdu_env_pdu_receive_data_callback(const uint8_t* buffer, unsigned long size) { (void)buffer; (void)size; ++n_cb; }
 
-/* ---- canaries: the object outside of the reassembly state */
+/* ---- canaries: the object behind the reassembly buffer */
 static unsigned long g_size, g_rb, g_rbsize, g_rs, g_ru;
-static uint8_t snap[512];
+static uint8_t snap[256];
 
-static int legit(unsigned long o)
+static int canary(unsigned long o)
 {
-    return (o >= g_rb && o < g_rb + g_rbsize) || (o >= g_rs && o < g_rs + 2) || (o >= g_ru && o < g_ru + 8);
+    return o >= g_rb + g_rbsize && !(o >= g_rs && o < g_rs + 2) && !(o >= g_ru && o < g_ru + 8);
 }
-static void take_snapshot(void)
-{
-    for (unsigned long o = 0; o < g_size; ++o) if (!legit(o)) snap[o] = vf_sdu_peek(cfg, o);
-}
-static void check_memory(void)
+static int memory_ok(void)
 {
     int same = 1;
-    for (unsigned long o = 0; o < g_size; ++o) if (!legit(o)) same &= snap[o] == vf_sdu_peek(cfg, o);
-    CHECK(same, "reassembly writes nothing outside its buffer (bytes of the object outside receive_buffer_ and its two counters are unchanged)");
+    for (unsigned long o = g_rb + g_rbsize; o < g_size; ++o) if (canary(o)) same &= snap[o] == vf_sdu_peek(cfg, o);
+    CHECK(same, "reassembly writes nothing outside its buffer (bytes of the object behind receive_buffer_ other than its two counters are unchanged)");
     unsigned long used = vf_sdu_receive_buffer_used(cfg), rest = vf_sdu_receive_size(cfg);
     OBSERVE(used); OBSERVE(rest);
-    CHECK(used <= g_rbsize && rest <= g_rbsize && used + rest <= g_rbsize, "used plus remaining bytes of the SDU being reassembled never exceed the reassembly buffer");
+    int fits = used <= g_rbsize && rest <= g_rbsize && used + rest <= g_rbsize;
+    CHECK(fits, "used plus remaining bytes of the SDU being reassembled never exceed the reassembly buffer");
+    return same && fits;
 }
 
 void harness(void)
 {
     vf_global_ctors();
     cfg = (int)CASE(CFG);
-    int k = (int)CASE(K);
-    rxmax = (unsigned)CASE(RXMAX);
+    const int k = (int)CASE(K);
+    const int twice = (int)CASE(TW);
+    const long ct[MAXK] = { CASE(T0), CASE(T1), CASE(T2), CASE(T3) };
+    const long cz[MAXK] = { CASE(Z0), CASE(Z1), CASE(Z2), CASE(Z3) };
     mtu = MTU[cfg]; llo = 2 + LOVH[cfg];
 
-    /* inputs */
-    unsigned i_llid[MAXK], i_size[MAXK], i_pos[MAXK];
-    uint8_t i_val[MAXK];
-    int i_twice[MAXK];
-    unsigned nsym = rxmax <= 64 ? rxmax : 8;
+    /* inputs: the content of every PDU, canary values, the compared position */
     for (int s = 0; s < k; ++s) {
-        q_pdu[s] = (uint8_t*)vf_alloc(rxmax);
-        memset(q_pdu[s], 0, rxmax);
-        in_bytes(q_pdu[s], nsym);
-        i_llid[s] = (unsigned)in_range(1, 3);
-        i_size[s] = (unsigned)in_range(llo, rxmax);
-        i_pos[s]  = (unsigned)in_range(0, rxmax - 1);
-        i_val[s]  = in_u8();
-        i_twice[s] = in_bool();
+        q_size[s] = llo + (unsigned long)cz[s];
+        q_pdu[s] = (uint8_t*)vf_alloc(q_size[s]);
+        in_bytes(q_pdu[s], q_size[s]);
     }
-    unsigned J = (unsigned)in_range(0, mtu + 4 + llo - 1);        /* the SDU byte that is compared */
-    /* case split: LLID (T<i>) and payload size (Z<i>) of PDU i are assigned when >= 0 (copy sizes become constants) */
-    {
-        long ct[MAXK] = { CASE(T0), CASE(T1), CASE(T2), CASE(T3), -1, -1 };
-        long cz[MAXK] = { CASE(Z0), CASE(Z1), CASE(Z2), CASE(Z3), -1, -1 };
-        for (int s = 0; s < k; ++s) {
-            if (ct[s] >= 0) i_llid[s] = (unsigned)ct[s];
-            if (cz[s] >= 0) i_size[s] = llo + (unsigned)cz[s];
-        }
-    }
+    const uint8_t cv = in_u8();
+    const unsigned J = (unsigned)in_range(0, mtu + 4 + llo - 1);        /* the SDU byte that is compared */
 
+    vf_sdu_construct(cfg);
     g_size = vf_sdu_geometry(cfg, 0); g_rb = vf_sdu_geometry(cfg, 1); g_rbsize = vf_sdu_geometry(cfg, 2);
     g_rs = vf_sdu_geometry(cfg, 3); g_ru = vf_sdu_geometry(cfg, 4);
-    CHECK(g_rbsize == mtu + 4 + llo && g_size <= sizeof snap, "reassembly buffer holds an SDU of MTU size plus L2CAP and LL header");
-    /* make the padding bytes (not initialised by the constructor) defined */
-    for (unsigned long o = 0; o < g_size; ++o)
-        if (!legit(o) && !(o >= vf_sdu_geometry(cfg, 7) && o < vf_sdu_geometry(cfg, 7) + 2) && !(o >= vf_sdu_geometry(cfg, 8) && o < vf_sdu_geometry(cfg, 8) + 8))
-            vf_sdu_poke(cfg, o, (unsigned char)(0xA5 ^ o));
-    take_snapshot();
-    check_memory();
+    CHECK(g_rbsize == mtu + 4 + llo && g_size <= sizeof snap && g_rs >= g_rb + g_rbsize && g_ru >= g_rb + g_rbsize,
+          "reassembly buffer holds an SDU of MTU size plus L2CAP and LL header; its counters lie behind it");
+    if (!(g_rbsize == mtu + 4 + llo && g_size <= sizeof snap)) return;
+    {
+        /* transmit_size_ / transmit_buffer_used_ keep their constructed value; everything else behind receive_buffer_ gets a canary value */
+        unsigned long ts = vf_sdu_geometry(cfg, 7), tu = vf_sdu_geometry(cfg, 8);
+        for (unsigned long o = g_rb + g_rbsize; o < g_size; ++o) {
+            if (!canary(o)) continue;
+            if (!((o >= ts && o < ts + 2) || (o >= tu && o < tu + 8))) vf_sdu_poke(cfg, o, (unsigned char)(cv ^ (o * 7)));
+            snap[o] = vf_sdu_peek(cfg, o);
+        }
+    }
+    if (!memory_ok()) return;
 
     /* model */
     int open = 0;                 /* a reassembly is in progress */
@@ -143,16 +149,14 @@ void harness(void)
     q_head = q_tail = 0;
     for (int s = 0; s < k; ++s) {
         /* the PDU arrives */
-        unsigned size = i_size[s];
+        const unsigned size = (unsigned)q_size[s];
         uint8_t* pdu = q_pdu[s];
-        if (i_pos[s] >= 2 && rxmax > 64) pdu[i_pos[s]] = i_val[s];
-        unsigned llid = i_llid[s];
+        const unsigned llid = (unsigned)ct[s];
+        const unsigned body = size - llo;
         pdu[0] = (uint8_t)((pdu[0] & ~3u) | llid);
-        pdu[1] = (uint8_t)(size - llo);
-        q_size[s] = size;
+        pdu[1] = (uint8_t)body;
         q_tail = s + 1;
-        unsigned body = size - llo;
-        unsigned l2len = (unsigned)pdu[llo] | ((unsigned)pdu[llo + 1] << 8);
+        const unsigned l2len = body >= 2 ? ((unsigned)pdu[llo] | ((unsigned)pdu[llo + 1] << 8)) : 0;
 
         /* what the model expects for this PDU: 0 nothing, 1 the PDU itself, 2 a reassembled SDU, 3 SDU cut at the announced size or nothing */
         int expect = 0;
@@ -175,15 +179,15 @@ void harness(void)
             else if (have > need) expect = 3;
         }
 
-        unsigned long rsz = 7; int where = 9; long off = 0;
-        const uint8_t* r = vf_sdu_next_ll_l2cap_received(cfg, &rsz, &where, &off);
-        OBSERVE(rsz); OBSERVE(where); OBSERVE(off);
-        check_memory();
-        if (i_twice[s]) {
-            unsigned long rsz2 = 7; int where2 = 9; long off2 = 0;
-            const uint8_t* r2 = vf_sdu_next_ll_l2cap_received(cfg, &rsz2, &where2, &off2);
-            CHECK(r2 == r && rsz2 == rsz, "next_ll_l2cap_received() returns the same PDU/SDU until it is freed");
-            check_memory();
+        unsigned long rsz = 7; int where = 9;
+        const uint8_t* r = vf_sdu_next_ll_l2cap_received(cfg, &rsz, &where);
+        OBSERVE(rsz); OBSERVE(where);
+        if (!memory_ok()) return;
+        if (twice) {
+            unsigned long rsz2 = 7; int where2 = 9;
+            const uint8_t* r2 = vf_sdu_next_ll_l2cap_received(cfg, &rsz2, &where2);
+            CHECK(r2 == r && rsz2 == rsz && where2 == where, "next_ll_l2cap_received() returns the same PDU/SDU until it is freed");
+            if (!memory_ok()) return;
         }
 
         if (expect == 0) {
@@ -193,8 +197,8 @@ void harness(void)
         } else {
             if (expect == 2) CHECK(where == 1, "the SDU is delivered when its announced length was received");
             if (where != 0) {
-                CHECK(where == 1 && off == 0 && rsz == need, "a delivered SDU has exactly the length its L2CAP header announces");
-                if (where == 1 && off == 0 && rsz == need && J < need) {
+                CHECK(where == 1 && rsz == need, "a delivered SDU has exactly the length its L2CAP header announces");
+                if (where == 1 && rsz == need && J < need) {
                     CHECK(g_known, "internal: compared byte was received");
                     CHECK(r[J] == g_byte, "a delivered SDU consists of the bytes of one start fragment followed by its continuations");
                     OBSERVE(r[J]);
@@ -205,14 +209,14 @@ void harness(void)
         if (where != 0) {
             int before = n_free;
             vf_sdu_free_ll_l2cap_received(cfg);
-            check_memory();
+            if (!memory_ok()) return;
             if (where == 2) CHECK(n_free == before + 1, "freeing a handed through PDU frees exactly this PDU of the radio");
             else            CHECK(n_free == before, "freeing a reassembled SDU frees no PDU of the radio");
         }
         CHECK(q_head == q_tail, "every received PDU is consumed exactly once");
-        for (unsigned i = 0; i < 8; ++i) OBSERVE(pdu[i]);
+        if (q_head != q_tail) return;
     }
-    CHECK(n_cb <= k, "data callback is called at most once per PDU");
+    OBSERVE(n_cb);      /* the data callback is no part of the property (it is repeated when next_ll_l2cap_received() is repeated) */
 
     WITNESS();
 }
